@@ -10,7 +10,8 @@ PROPERTY = "C19"
 RULE = (
     "Programs with alternating sequential/parallel nesting to depth 6, branches of unequal length, empty blocks, "
     "subcircuit blocks (with counts), top-level and in-sequence loops (never under a parallel block in the positive "
-    "cases), lets/aliases/pulse imports in the header; every gate instance carries a unique integer tag.  Oracle: "
+    "cases), lets/aliases/pulse imports in the header; every gate instance carries an integer tag, unique in 4 of 5 "
+    "cases and otherwise a textual twin of an earlier gate.  Oracle: "
     "under the unit-time model (gate = 1 step, sequence = sum, parallel = common start and max duration, loops "
     "are atoms of one step) the multiset of (tag, time step) - and of (loop count, loop body meaning, time step) - "
     "is the same for normalize_blocks_with_unitary_timing(c) as for c; the output body is flat (each element a "
@@ -39,7 +40,10 @@ def _gen_items(ch, ctx, depth, tag, allow_loop, in_sub, under_par, bad):
         k = ch.pick(kinds)
         if k == "gate":
             tag[0] += 1
-            out.append(["g", ch.pick(["g", "h"]), [["n", tag[0]]]])
+            # mostly unique tags; sometimes a textually identical twin of an earlier gate (the
+            # schedule is compared as a multiset, so identical instances are fine)
+            t = tag[0] if ch.int(0, 4) else ch.int(1, max(1, tag[0]))
+            out.append(["g", ch.pick(["g", "h"]) if t == tag[0] else "g", [["n", t]]])
         elif k == "par":
             out.append(["par", _gen_items(ch, "par", depth - 1, tag, allow_loop and bad, in_sub, True, bad)])
         elif k == "seq":
@@ -200,9 +204,10 @@ def check(case):
     g_in, l_in = _events(t_in)
     g_out, l_out = _events(t_out)
     if g_in != g_out:
-        lost = sorted(set(x[0] for x in g_in) - set(x[0] for x in g_out))
-        dup = len(g_out) != len(set(x[0] for x in g_out))
-        kind = "gate-lost" if lost else "gate-duplicated" if dup else "gate-time-step-changed"
+        from collections import Counter
+
+        cin, cout = Counter((x[0], x[1]) for x in g_in), Counter((x[0], x[1]) for x in g_out)
+        kind = "gate-lost" if cin - cout else "gate-duplicated" if cout - cin else "gate-time-step-changed"
         raise Violation(kind, f"(tag, gate, step) input {g_in}\noutput {g_out}\n--- program:\n{text}")
     if len(l_in) != len(l_out) or any(a[0] != b[0] or a[1] != b[1] or not same_meaning(a[2], b[2]) for a, b in zip(sorted(l_in, key=lambda x: x[0]), sorted(l_out, key=lambda x: x[0]))):
         raise Violation("loop-schedule-changed", f"input {l_in}\noutput {l_out}\n--- program:\n{text}")
